@@ -734,6 +734,9 @@ func (r *reader) read(src []byte) {
 			}
 			r.sharpNum = r.sharpNum*10 + int(b-'0')
 		case radixByte:
+			if r.sharpNum < 2 || 36 < r.sharpNum {
+				r.raise("illegal radix %d for #R, it must be between 2 and 36", r.sharpNum)
+			}
 			r.tokenStart = r.pos + 1
 			r.mode = intMode
 			r.base = r.sharpNum
